@@ -127,6 +127,36 @@ def processRules (sort : List Rule → List Rule) (failFirst : Bool) (rules : Li
     List Rule × List Rule :=
   execLoop failFirst (sort rules) []
 
+/-- life-cycle calls on a processor before the measured event (engine/processor.go) -/
+inductive LOp where
+  | start | finish | reset | addRules
+  | setFlag (b : Bool)          -- `SetFailOnFirstErrorInTriggerSequence(b)`
+  deriving Repr, DecidableEq, Inhabited
+
+/-- the part of `eventProcessor` the life cycle touches: `failOnFirstError`, whether the pool
+    runs, whether the rule index holds the rules -/
+structure Proc where
+  flag    : Bool := false       -- `NewProcessor` starts with `false`; `NewECALRuntimeProvider` sets `true`
+  running : Bool := false
+  loaded  : Bool := false
+  deriving Repr, DecidableEq, Inhabited
+
+/-- `Start`, `Finish`, `Reset` (new rule index; refused while running), `AddRule` (refused while
+    running), `SetFailOnFirstErrorInTriggerSequence`: only the last one writes `failOnFirstError` -/
+def Proc.step (p : Proc) : LOp → Proc
+  | .start => { p with running := true }
+  | .finish => { p with running := false }
+  | .reset => if p.running then p else { p with loaded := false }
+  | .addRules => if p.running then p else { p with loaded := true }
+  | .setFlag b => { p with flag := b }
+
+def Proc.run (p : Proc) (ops : List LOp) : Proc := ops.foldl Proc.step p
+
+/-- `ProcessEvent` on a processor with a history -/
+def processRulesAfter (sort : List Rule → List Rule) (p : Proc) (history : List LOp)
+    (rules : List Rule) : List Rule × List Rule :=
+  processRules sort (p.run history).flag rules
+
 /-- specification function: the prefix up to and including the first failing rule -/
 def uptoFirstFail : List Rule → List Rule
   | [] => []
